@@ -6,6 +6,13 @@ ROOT = os.path.dirname(os.path.dirname(os.path.abspath(__file__)))
 
 # id -> (category, technique, level text, level note, design ref)
 CHECKS = {
+ "C06": ("exploration",
+   "stateful proptest histories plus a deterministic deviation matrix and an id wrap-around run; acknowledgement-log oracle",
+   "Deviation matrix (every send kind x every acknowledgement type x position 0..2, wrong id, duplicate, reordered, unsolicited; four roles), one run of 65545 automatic ids across the 65535->1 wrap per role, and generated histories "
+   "of sends with automatic/caller-chosen ids, locally failing sends, singly/batched acknowledgements with generated v5 contents and at most one deviation. A send completes Ok only after the peer sent the right acknowledgement for its id and returns its contents; "
+   "outstanding ids non-zero and distinct; a deviation gives exactly one Stop(Protocol) and resolves all pending futures; a correct peer completes everything, keeps the connection and restores credit().",
+   "Trusted: as C03; out-of-order PUBCOMPs among several released exchanges are not judged.",
+   "DESIGN.md section 3 C06"),
  "C05": ("exploration",
    "stateful proptest histories with a harness-owned sender schedule; counter model on the spec-decoded wire",
    "Histories of 3..25 ops for send limits 1..4 (established via config, HandshakeAck::max_send, or the peer's Receive Maximum lower/higher than the configured value): create / poll / drop sink futures in any order, "
